@@ -18,6 +18,8 @@ CONSTANTS
   YVals,     \* integer values of the numeric measure variable; {} = count cube
   Weighted,  \* TRUE: the response carries a weighted `count` measure
   ValidCounts, \* TRUE: the response carries valid-count measures for its numeric measure
+  SumNaN,    \* TRUE: the server reports the sum of a cell without values as missing
+             \* (FALSE: as 0, the usual case)
   SimMode    \* TRUE under `tlc -simulate`: one random respondent per step
 
 (***************************************************************************)
